@@ -51,8 +51,9 @@ where
 
 /// a type of the same name in another module is a different type, not an alias of itself
 fn in_other_module(rust_type: &RustFieldType, target_namespace: Option<&Rc<Namespace>>) -> bool {
-    match rust_type {
-        RustFieldType::Other(other) => other.module.as_deref() != target_namespace.map(|ns| ns.rust_mod_name.as_str()),
+    match (rust_type, target_namespace) {
+        // a type reference without a module (unprefixed) or a component without a namespace stays in the module it is written in
+        (RustFieldType::Other(other), Some(ns)) => other.module.as_ref().is_some_and(|module| *module != ns.rust_mod_name),
         _ => false,
     }
 }
